@@ -27,7 +27,7 @@ func init() {
 		},
 		MaxSteps:     300000,
 		QuickRuns:    24000,
-		ThoroughSecs: 600,
+		ThoroughSecs: 400,
 		YieldFiles:   []string{"service/udp_nat.go", "service/udp_nat_mmsg.go", "service/udp_session.go", "service/udp_session_mmsg.go"},
 		Rule: c05codec.Rule + "; relay half (1 run in 4): one relay configuration (server protocol x client protocol, MTU per side from {1280,1492,1500,9000,65535}, " +
 			"generic or recvmmsg/sendmmsg path, batch sizes, padding policies) with 1-5 sessions sending tagged datagrams whose lengths are dense around the limits of both MTUs and " +
